@@ -29,3 +29,91 @@ PROPS["C01"] = {
         "thorough": {"evaluations": 20000, "removal_children.2": 1000, "dumps_compared": 200000},
     },
 }
+
+PROPS["C02"] = {
+    "level": "exploration",
+    "rule": "case = one seeded mutating history; a crash point = every boundary between API calls at which no handle holds "
+            "unflushed data; at each, the MonFile bytes taken WITHOUT flush are reopened permissive and strict and the full dump "
+            "compared with model and live object; 15% of crash points fork the next 5-15 operations onto the reopened file. "
+            "non-trivial = history of >= 5 steps that was not abandoned; distinct = FNV-64 of (version, step list)",
+    "assumptions": COMMON_ASSUMPTIONS + ["only logical results are compared after a reopen (free lists are rebuilt in index order, so byte images may legitimately differ)"],
+    "checked_share": 0.6,
+    "quick": {"budget_s": 20},
+    "thorough": {"budget_s": 300},
+    "floors": {
+        "quick": {"crash_points": 50000, "forks": 5000, "hdr_change.num_fat_sectors": 100, "hdr_change.num_minifat": 1000, "hdr_change.first_minifat": 500},
+        "thorough": {"crash_points": 500000, "forks": 50000},
+    },
+}
+
+PROPS["C03"] = {
+    "level": "exploration",
+    "rule": "case = one seeded history (or, for case 0 of each shard, a large scenario: v3 image with a DIFAT sector / many small "
+            "streams / v4 with several FAT sectors / v3 with more DIFAT growth); after EVERY successful step the raw bytes are judged "
+            "by the independent rule checker (refparse.rs, 60 rules). non-trivial = history with >= 5 steps and >= 1 removal; "
+            "distinct = FNV-64 of (version, step list)",
+    "assumptions": COMMON_ASSUMPTIONS + [
+        "tolerated, counted as slack not violations: mini-stream container / MiniFAT chain longer than the root size needs; root start sector kept when the mini stream is empty",
+        "red-black balance (black height) is not demanded: the property asks for a search tree without red-red edges",
+    ],
+    "checked_share": 0.6,
+    "quick": {"budget_s": 22},
+    "thorough": {"budget_s": 300},
+    "floors": {
+        "quick": {"images_checked": 100000, "images_with_difat_sector": 1, "large_scenario.1": 1, "large_scenario.2": 1},
+        "thorough": {"images_checked": 1000000, "images_with_difat_sector": 2},
+    },
+}
+
+PROPS["C06"] = {
+    "level": "exploration",
+    "rule": "case = one seeded call script (20-120 calls quick, 40-300 thorough) on one handle: read/read_exact/fill_buf+consume/"
+            "write/write_all/seek (18 argument classes incl. i64::MIN, i64::MAX, u64::MAX)/set_len/flush/position/len, replayed "
+            "under 3 of the 10 max_buffer_size x 2 version configurations, each checked call by call against a Vec<u8>+cursor model "
+            "(Read/Write contracts for raw calls); exact-count-only scripts must give identical traces under all configurations; "
+            "fresh-handle and reopen readbacks every 10-20 calls. every script is non-trivial (>= 20 calls); distinct = (script seed, initial length)",
+    "assumptions": COMMON_ASSUMPTIONS + ["raw read/write/fill_buf are checked against the std Read/Write/BufRead contracts, not an exact count",
+                                         "position after a failed read_exact is unspecified by std and only required to lie in [pos, len]"],
+    "checked_share": 0.7,
+    "quick": {"budget_s": 20},
+    "thorough": {"budget_s": 300},
+    "floors": {
+        "quick": {"scripts": 3000, "seek.end_i64min": 100, "seek.cur_i64min": 100, "seek.start_u64max": 100, "seek.end_i64max": 100, "seek.cur_i64max": 100,
+                  "scripts_big": 10, "differential_scripts_compared": 1000, "fresh_handle_readbacks": 10000},
+        "thorough": {"scripts": 30000, "scripts_big": 300},
+    },
+}
+
+PROPS["C07"] = {
+    "level": "exploration",
+    "rule": "case = one seeded history with up to 6 long-lived handles on different streams interleaved with removals (steered, by the "
+            "independent parser's view of the sibling trees, onto entries with two children while handles sit on their in-order "
+            "predecessor / successor / parent), creations reusing the freed slot, overwrites/resizes of other streams; per-step "
+            "len/position check, and at checkpoints (all handles flushed) the full dump through fresh lookups AND through the "
+            "independent parser is compared with the model. non-trivial = history with >= 1 two-child removal; distinct = FNV-64 of steps",
+    "assumptions": COMMON_ASSUMPTIONS + ["a stream with a live handle is never removed or overwritten (outside the property)"],
+    "checked_share": 0.6,
+    "quick": {"budget_s": 20},
+    "thorough": {"budget_s": 300},
+    "floors": {
+        "quick": {"two_child_removals": 5000, "two_child_removal_with_handle_on.predecessor": 1000, "creations_reusing_slot_with_live_handles": 5000,
+                  "handle_ops_after_slot_reuse": 5000, "checkpoints": 5000},
+        "thorough": {"two_child_removals": 50000, "two_child_removal_with_handle_on.predecessor": 10000},
+    },
+}
+
+PROPS["C08"] = {
+    "level": "exploration",
+    "rule": "case = one seeded history over 5 stream names of create+write / remove / shrink / grow (lengths on both sides of 64, "
+            "512, 4096, sector size), all payload bytes non-zero; after every growing set_len the gained range is read through the same "
+            "handle, after flush through a reopen in both modes, and must be all zero; a stale byte is classified by provenance. "
+            "non-trivial = history containing >= 1 checked grow; distinct = FNV-64 of steps",
+    "assumptions": COMMON_ASSUMPTIONS,
+    "checked_share": 0.6,
+    "quick": {"budget_s": 15},
+    "thorough": {"budget_s": 240},
+    "floors": {
+        "quick": {"grows_checked": 20000, "grow.mini->mini": 5000, "grow.mini->regular": 3000, "grow.regular->regular": 500, "grow.empty->mini": 1000},
+        "thorough": {"grows_checked": 200000},
+    },
+}
